@@ -84,6 +84,12 @@ func lex(src string) ([]tok, error) {
 			for j < len(src) && (isIdentChar(src[j]) || (src[j] == '.' && j+1 < len(src) && src[j+1] >= '0' && src[j+1] <= '9' && !strings.Contains(src[i:j], "."))) {
 				j++
 			}
+			// Go float literal with a trailing dot ("2.", "100."): the dot is not followed by an identifier
+			if j < len(src) && src[j] == '.' && !strings.Contains(src[i:j], ".") && (j+1 >= len(src) || !(isIdentStart(src[j+1]) || src[j+1] == '(')) && (i == 0 || src[i-1] != '.') {
+				toks = append(toks, tok{"num", src[i:j] + ".0", i})
+				i = j + 1
+				continue
+			}
 			toks = append(toks, tok{"num", src[i:j], i})
 			i = j
 		case isIdentStart(c) || c == '$':
